@@ -76,7 +76,8 @@ def pipeline_cases(draw):
             n_il, n_xl = dims or (draw(st.integers(2, 14)), draw(st.integers(2, 14)))
             ax = lambda: [draw(st.one_of(st.integers(-50, 5000), st.integers(-10 ** 6, 10 ** 6))), draw(st.sampled_from([1, 1, 2, 3, 5]))]
             case.update(shape=[n_il, n_xl, ns], values={"kind": draw(st.sampled_from(["smooth", "gauss", "steps"])), "vseed": draw(st.integers(0, 2 ** 32 - 1))},
-                        il=ax(), xl=ax(), dz_ms=draw(st.sampled_from([4, 2, 1, 0.5])), z0=draw(st.sampled_from([0, 100, -8])))
+                        il=ax(), xl=ax(), dz_ms=draw(st.sampled_from([4, 2, 1, 0.5])),
+                        z0=draw(st.sampled_from([0, 100, -8] + ([1000.5, -12.25, 0.75] if route == "zgy" else []))))
         else:
             geom = "regular" if route == "segy" else "irregular"
             case["src"] = draw(sources.segy_source(geom=geom, max_dim=12, max_ns=20, allow_mid=False,
